@@ -118,7 +118,7 @@ func (mods *Modifiers) EquivalentTo(other *Modifiers) bool {
 		if b := mods.Bindings.Table[disabled]; b != nil {
 			if other.Bindings == nil || other.Bindings.Table == nil {
 				return false
-			} else if ob := mods.Bindings.Table[disabled]; ob == nil {
+			} else if ob := other.Bindings.Table[disabled]; ob == nil {
 				return false
 			} else {
 				return b.Equals(ob)
